@@ -239,24 +239,30 @@ def core_mod():
         self.f.kpost(ctr_ks(enc, %(f)s::wbytes(), %(f)s::big_endian()),
             KAbs { base: %(f)s::base(&*self.ctr_nonce), pos: %(f)s::pos(&*self.ctr_nonce) },
             KAbs { base: %(f)s::base(&mut_ref_future(self.ctr_nonce)), pos: %(f)s::pos(&mut_ref_future(self.ctr_nonce)) })
+        && ks_reach(ctr_ks(enc, %(f)s::wbytes(), %(f)s::big_endian()),
+            KAbs { base: %(f)s::base(&*self.ctr_nonce), pos: %(f)s::pos(&*self.ctr_nonce) },
+            KAbs { base: %(f)s::base(&mut_ref_future(self.ctr_nonce)), pos: %(f)s::pos(&mut_ref_future(self.ctr_nonce)) })
     }
 ''' % {'f': FQ % 'BS'}, fns={'call': FnC(props=('C07', 'C04'), inherits=True, note='plumbing')}),
         Sel('impl StreamCipherCore for CtrCore', members='''
     open spec fn kabs(&self) -> KAbs { %s }
     open spec fn kstep(&self) -> KStep { %s }
     open spec fn klimit(&self) -> Option<int> { Some(pow256(%s::wbytes()) - 1 - %s::pos(&self.ctr_nonce)) }
-''' % (kabs_core, kstep_core, fc, fc), fns={
+    open spec fn korigin(&self) -> KAbs { KAbs { base: %s::base(&self.ctr_nonce), pos: 0 } }
+''' % (kabs_core, kstep_core, fc, fc, fc), fns={
             'remaining_blocks': FnC(props=('C10', 'C11', 'C13'), inherits=True),
-            'process_with_backend': FnC(props=('C07', 'C04'), inherits=True, note='plumbing')}),
+            'process_with_backend': FnC(props=('C07', 'C04', 'C10'), inherits=True, note='plumbing', stmts={'end': '''
+        proof { ctr_reach_base(old(self).cipher.enc_fn(), %s::wbytes(), %s::big_endian(), old(self).kabs(), self.kabs()); }
+''' % (fc, fc)})}),
         Sel('impl StreamCipherSeekCore for CtrCore', members='''
     open spec fn counter_val(c: F::Backend) -> int { %(f)s::backend_val(c) }
-    open spec fn origin(&self) -> KAbs { KAbs { base: %(f)s::base(&self.ctr_nonce), pos: 0 } }
     open spec fn block_pos(&self) -> int { %(f)s::pos(&self.ctr_nonce) }
     open spec fn pos_modulus() -> int { pow256(%(f)s::wbytes()) }
     proof fn lemma_pos_coherent(&self) {
         %(f)s::lemma_pos_range(&self.ctr_nonce);
         mod_add_wrap(0, %(f)s::pos(&self.ctr_nonce), pow256(%(f)s::wbytes()));
     }
+    proof fn lemma_step_law(&self) {}
 ''' % {'f': fc}, fns={
             'get_block_pos': FnC(props=('C10',), inherits=True),
             'set_block_pos': FnC(props=('C10',), inherits=True, ensures=[('frame_cipher', ('C10',), 'final(self).cipher == old(self).cipher')]),
